@@ -23,6 +23,7 @@ package environment
 
 import (
 	"fmt"
+	"strings"
 
 	"github.com/skx/evalfilter/v2/object"
 )
@@ -121,6 +122,16 @@ func New() *Environment {
 	return env
 }
 
+// variable returns the name under which a variable is stored.
+//
+// Scripts may write the name of a variable with the legacy "$" prefix.
+// Reading a variable has always removed it before coming here - `$name`
+// reads `name` - and so must everything that stores one, or what was
+// stored as `$name` could never be read again.
+func variable(name string) string {
+	return strings.TrimPrefix(name, "$")
+}
+
 // Get returns the value of a given variable, by name.
 //
 // This has to test any locally-scoped storage as well as the global
@@ -176,6 +187,8 @@ func (e *Environment) isLocal(name string) (object.Object, bool) {
 // See also SetLocal for scoped-variables.
 func (e *Environment) Set(name string, val object.Object) object.Object {
 
+	name = variable(name)
+
 	//
 	// If the variable is locally scoped then we MUST
 	// redirect writes to that local variable.
@@ -199,6 +212,8 @@ func (e *Environment) Set(name string, val object.Object) object.Object {
 
 // Delete removes the global variable with the given name, if there is one.
 func (e *Environment) Delete(name string) {
+	name = variable(name)
+
 	delete(e.global, name)
 }
 
@@ -236,6 +251,8 @@ func (e *Environment) RemoveScope() error {
 // SetLocal stores the value of a variable, by name, but only for the local scope.
 func (e *Environment) SetLocal(name string, val object.Object) object.Object {
 
+	name = variable(name)
+
 	// If we're not in a wrapped environment that's a bug .. (!)
 	if len(e.local) > 0 {
 
@@ -272,6 +289,8 @@ func (e *Environment) SetLocal(name string, val object.Object) object.Object {
 // This is how function-parameters, `local` variables, and the variables of
 // a `foreach` loop come into existence.
 func (e *Environment) Declare(name string, val object.Object) object.Object {
+	name = variable(name)
+
 	if len(e.local) > 0 {
 		e.local[len(e.local)-1][name] = val
 	}
